@@ -75,6 +75,7 @@ Log(e)        == [k |-> "log", e |-> e]
 Brk           == [k |-> "brk"]
 Cnt           == [k |-> "cnt"]
 Param(ns)     == [k |-> "param", ns |-> ns]
+ParamV(ns)    == [k |-> "paramv", ns |-> ns]        \* param (n1, ..., ...nk): the last one collects the remaining arguments
 Global(ns)    == [k |-> "global", ns |-> ns]
 
 (* ---------------- state, environment ---------------- *)
@@ -324,6 +325,16 @@ ExecS(s, env, st, d) ==
                                    IN go(x[1], x[2], i + 1)
              r == go(env, st, 1)
          IN SR(Norm, r[1], r[2])
+    [] s.k = "paramv" ->
+         LET fixed == Len(s.ns) - 1
+             RECURSIVE go(_,_,_)
+             go(e2, s2, i) == IF i > fixed THEN <<e2, s2>>
+                              ELSE LET x == Declare(e2, s2, s.ns[i], IF i <= Len(st.args) THEN st.args[i] ELSE VUndef)
+                                   IN go(x[1], x[2], i + 1)
+             r == go(env, st, 1)
+             rest == IF Len(st.args) > fixed THEN SubSeq(st.args, fixed + 1, Len(st.args)) ELSE <<>>
+             y == Declare(r[1], r[2], s.ns[Len(s.ns)], VArr(rest))
+         IN SR(Norm, y[1], y[2])
     [] s.k = "global" ->
          LET RECURSIVE gg(_,_)
              gg(e2, i) == IF i > Len(s.ns) THEN e2 ELSE gg(Bind(e2, s.ns[i], GloB(s.ns[i])), i + 1)
@@ -457,7 +468,7 @@ BRefsFrom(b, i, sc) ==
              CASE s.k \in {"def", "const", "vari"} -> <<ERefs(s.e, sc), DeclS(sc, {s.n})>>
                [] s.k = "var" -> <<{}, DeclS(sc, {s.n})>>
                [] s.k = "constg" -> <<ERefs(s.e, Append(sc, {"iota"})), DeclS(sc, SeqSet(s.ns))>>
-               [] s.k \in {"param", "global"} -> <<{}, DeclS(sc, SeqSet(s.ns))>>
+               [] s.k \in {"param", "paramv", "global"} -> <<{}, DeclS(sc, SeqSet(s.ns))>>
                [] s.k \in {"asg", "cmp"} -> <<ERefs(s.e, sc) \cup ERefs(Id(s.n), sc), sc>>
                [] s.k \in {"asgi", "cmpi"} -> <<ERefs(s.e, sc) \cup ERefs(s.t, sc) \cup ERefs(s.i, sc), sc>>
                [] s.k = "asgs" -> <<ERefs(s.e, sc) \cup ERefs(s.t, sc), sc>>
